@@ -551,6 +551,7 @@ def setup(rep, tier):
     rep.minimum('R17.6', 1)
     rep.minimum('R17.7', 4)
     rep.minimum('R17.8', 6)
+    rep.minimum('R17.9', 1)
     if tier == 'thorough':
         rep.minimum('R17.5', 1)
     rep.trusted.append('python port of log2_frac (celt/cwrs.c) used as the generator oracle for the pulse cache; exact integer recurrence for U')
@@ -607,6 +608,137 @@ def r17_6(rep, prog):
             else:
                 rep.violated('R17.6', inst, where, '`%s` does not depend on the clamp (%s): beyond the representable tail the caller keeps a value the decoder cannot reconstruct' % (
                     sx.show(x)[:60], ', '.join(sorted(f.locals[c]['name'] for c in clamps))), key=f.name + ':writeback')
+    return n
+
+
+# ------------------------------------------------------------------ R17.9
+def _run_region(f, order, env):
+    """evaluate the assignments of an acyclic region (blocks in flow order) over an integer environment
+    {sx.key(lvalue): int}; the ?: diamonds of IMIN/IMAX are evaluated as expressions.  Returns the environment,
+    or None when a right-hand side cannot be evaluated."""
+    from .. import decide
+    env = dict(env)
+    for b in order:
+        for st in f.blocks[b]['stmts']:
+            k = sx.kind(st)
+            if k == 'assign':
+                v = decide.ev3(st[2], env)
+                lhs = st[1]
+            elif k == 'cassign':
+                a, c = decide.ev3(st[2], env), decide.ev3(st[3], env)
+                if a is None or c is None:
+                    return None
+                v = decide.ev3(['bin', st[1], ['int', a], ['int', c]], env)
+                lhs = st[2]
+            else:
+                continue
+            if v is None:
+                return None
+            env[sx.key(sx.strip(lhs))] = v
+    return env
+
+
+def r17_9(rep, prog, tier):
+    """the tail clamp of the Laplace encoder is exact.  Beyond the decaying part the remaining probability mass is tiled
+    with minimum-probability slots that alternate between the two signs, and the decoder accepts every one of them.  The
+    encoder's clamp must therefore stop at the LAST slot of the value's sign: the clamped interval lies inside the 15-bit
+    range (no overlap past the top) and the next slot of the same sign would start at or beyond 32768 (no gap: otherwise
+    the decoder can return a value that the encoder maps to a different one, and decode no longer inverts encode).
+    Decided by evaluating the expressions of the tail branch, as extracted from the source, for every entry value of the
+    cumulative frequency that the reserve of the decaying part allows and for both signs; the slot spacing and the
+    reserve are read from the code (two unclamped evaluations; the `ft` expression of the first-frequency helper)."""
+    from .. import decide, cfg as cfgm
+    n = 0
+    for f in prog.functions_all:
+        if not f.file.endswith('laplace.c') or 'encode' not in f.name:
+            continue
+        clamp = None
+        for bid, st in f.stmts():
+            if sx.kind(st) == 'assign' and sx.kind(sx.strip(st[1])) == 'local':
+                rr = sx.strip(st[2])
+                if sx.kind(rr) == 'cond' and sx.kind(sx.strip(rr[1])) == 'bin' and sx.strip(rr[1])[1] in ('<', '<=', '>', '>='):
+                    clamp = (bid, st)
+                    break
+        if clamp is None:
+            continue
+        cf = cfgm.CFG(f)
+        inst = '%s:%s tail clamp stops at the last slot of each sign' % (prog.config, f.name)
+        # the branch that holds the clamp: nearest guard that is an if over a plain variable test
+        g = [x for x in cfgm.guards_of(cf, clamp[0]) if f.blocks[x[2]].get('term', {}).get('kind') == 'IfStmt']
+        if not g:
+            rep.unresolved('R17.9', inst + ': the clamp is not inside a conditional branch'); n += 1
+            continue
+        cond, pol, gb = g[0]
+        start = [s for s, p_ in cf.edges(gb) if p_ == pol][0]
+        join = cf.ipdom.get(gb)
+        region = sorted((cf.reachable_from(start, avoid=(join,)) | {start}) - {join}, reverse=True)
+        if any(h in region for h, _, _ in cf.natural_loops()):
+            rep.unresolved('R17.9', inst + ': tail branch contains a loop'); n += 1
+            continue
+        where = '%s:%s' % (f.file, sx.line(clamp[1]))
+        # names: the mask s (R17.7 definition), the magnitude and position locals read by the clamp, fl = the local
+        # updated by a compound assignment in the region, the interval width = param assigned in the region
+        masks = [sx.strip(x[1]) for x in f.all_nodes() if x[0] == 'assign' and sx.kind(sx.strip(x[1])) == 'local' and _is_mask_def(x[2])]
+        cum = [sx.strip(st[2]) for b in region for st in f.blocks[b]['stmts'] if sx.kind(st) == 'cassign' and sx.kind(sx.strip(st[2])) == 'local']
+        wid = [sx.strip(st[1]) for b in region for st in f.blocks[b]['stmts'] if sx.kind(st) == 'assign' and sx.kind(sx.strip(st[1])) == 'param']
+        out = [st for b in region for st in f.blocks[b]['stmts'] if sx.kind(st) == 'assign' and sx.kind(sx.strip(st[1])) == 'deref']
+        mag = sx.strip(sx.strip(clamp[1][2])[2])        # val - i
+        if not (len(masks) == 1 and len(cum) == 1 and len(wid) == 1 and sx.kind(mag) == 'bin' and mag[1] == '-'):
+            rep.unresolved('R17.9', inst + ': tail branch does not have the expected roles (mask %d, cumulative %d, width %d)' % (len(masks), len(cum), len(wid))); n += 1
+            continue
+        ks, kfl, kw, kval, ki = sx.key(masks[0]), sx.key(cum[0]), sx.key(wid[0]), sx.key(sx.strip(mag[2])), sx.key(sx.strip(mag[3]))
+        # reserve of the decaying part: ft at fs0 = 0 in the first-frequency helper
+        reserve = None
+        for h in prog.functions_all:
+            if h.file == f.file and 'freq' in h.name and h.params:
+                for x in h.all_nodes():
+                    if x[0] == 'assign' and sx.kind(sx.strip(x[1])) == 'local':
+                        v = decide.ev3(x[2], {sx.key(['param', 0, h.params[0]['name']]): 0})
+                        if isinstance(v, int) and 0 < v < 32768:
+                            reserve = 32768 - v
+        if reserve is None:
+            rep.unresolved('R17.9', inst + ': reserve of the decaying part not found in the first-frequency helper'); n += 1
+            continue
+        I0 = 7
+
+        def tail(fl0, s, d):
+            return _run_region(f, region, {ks: s, kfl: fl0, kw: 0, kval: I0 + d, ki: I0})
+        e0, e1 = tail(0, 0, 0), tail(0, 0, 1)
+        if e0 is None or e1 is None or e1[kfl] - e0[kfl] <= 0:
+            rep.unresolved('R17.9', inst + ': tail branch cannot be evaluated'); n += 1
+            continue
+        D = e1[kfl] - e0[kfl]
+        top = 32768 - reserve
+        # quick tier: every entry frequency in the top 2048 and every 5th below (both parities); thorough: all of them
+        dom = range(0, top + 1) if tier == 'thorough' else sorted(set(range(0, top + 1, 5)) | set(range(max(0, top - 2048), top + 1)))
+        bad = None
+        cnt = 0
+        for fl0 in dom:
+            for s in (0, -1):
+                base = tail(fl0, s, 0)
+                e = tail(fl0, s, 1 << 20)
+                if e is None or base is None:
+                    bad = 'fl=%d s=%d: not evaluable' % (fl0, s); break
+                lo, w = e[kfl], e[kw]
+                cnt += 1
+                if w <= 0 or lo + w > 32768 or lo < fl0:
+                    bad = 'fl=%d, sign mask %d: the clamped interval [%d,%d) is empty or leaves the 15-bit range' % (fl0, s, lo, lo + w); break
+                if lo + D < 32768:
+                    bad = ('fl=%d, sign mask %d: the clamp stops at [%d,%d) although the slot [%d,%d) of the same sign is still inside the range - '
+                           'the decoder returns that value, the encoder can never produce it' % (fl0, s, lo, lo + w, lo + D, lo + D + 1)); break
+                if out:
+                    v = decide.ev3(out[0][2], e)
+                    want = I0 + (lo - base[kfl]) // D
+                    if v is None or v != (-want if s else want):
+                        bad = 'fl=%d, sign mask %d: value written back %s, slot reached is %d' % (fl0, s, v, -want if s else want); break
+            if bad:
+                break
+        n += 1
+        rep.functions.add(f.name)
+        if bad:
+            rep.violated('R17.9', inst, where, bad, key=f.name + ':tail-clamp')
+        else:
+            rep.holds('R17.9', inst, where, '%d (entry frequency, sign) pairs: entry frequency 0..%d (reserve %d read from the helper), slot spacing %d; last slot inside the range, next slot of the sign outside, write-back equals the slot reached' % (cnt, 32768 - reserve, reserve, D), n=cnt)
     return n
 
 
@@ -710,6 +842,7 @@ def check(rep, prog, tier):
     r17_8(rep, prog)
     r17_7(rep, prog)
     r17_6(rep, prog)
+    r17_9(rep, prog, tier)
     pt = PointsTo(prog)
     r17_1(rep, prog, pt)
     if 'CELT_PVQ_U_DATA' in prog.globals:
